@@ -3,6 +3,7 @@
 package rules
 
 import (
+	"time"
 	"context"
 	"encoding/hex"
 	"fmt"
@@ -304,6 +305,18 @@ func vCloneRules(in []rconfig.Rule) []rconfig.Rule {
 		in[i].DeepCopyInto(&out[i])
 	}
 	return out
+}
+
+// vDeletion is what a provider passes to OnDeleted: the kubernetes provider hands over the complete last version (0),
+// file_system and cloud_blob only name the source (1), http_endpoint passes the empty document it received (2).
+func vDeletion(shape int, src string, last []rconfig.Rule) *rconfig.RuleSet {
+	switch shape {
+	case 1:
+		return &rconfig.RuleSet{MetaData: rconfig.MetaData{Source: src, ModTime: time.Now()}}
+	case 2:
+		return &rconfig.RuleSet{MetaData: rconfig.MetaData{Source: src, ModTime: time.Now()}, Rules: []rconfig.Rule{}}
+	}
+	return vRuleSet(src, last)
 }
 
 func vRuleSet(src string, rules []rconfig.Rule) *rconfig.RuleSet {
